@@ -187,8 +187,12 @@ def _simu_cases(tier):
 
 def cases(tier, seed):
     out = _single_cases(tier) + _pair_cases(tier) + _linear_cases(tier) + _assemble_cases(tier) + _simu_cases(tier)
-    out.sort(key=lambda c: -_est(c))  # stable: long cases first (pool scheduling only; the set is unchanged)
-    return out
+    # ordering only (the set is unchanged): the runner hands out chunks of 8 consecutive cases; deal the cases, longest first,
+    # round-robin into the chunks so that every chunk costs about the same, and put the cheap ones first inside a chunk
+    out.sort(key=lambda c: -_est(c))
+    m = max(1, -(-len(out) // 8))
+    chunks = [out[i::m][::-1] for i in range(m)]
+    return [c for ch in chunks for c in ch]
 
 
 def describe(tier, seed):
